@@ -157,8 +157,10 @@ SPEC = {
         "selectedG_not_dominated", "selectedG_is_viable", "unique_exact_selectedG", "twin_exact_ambiguousG",
         "resolveGLazy_eq_resolveG", "resolveGLazy_perm", "resolveT_perm", "resolveTLazy_eq_resolveT",
         "template_twin_is_ambiguous", "template_literal_deduces_int", "template_const_vector_argument",
-        "explicit_args_exclude_plain_functions", "template_vector_of_vector_panics",
-        "template_param_matches_exactly", "simple_templates_never_panic", "unique_exact_selectedT",
+        "explicit_args_exclude_plain_functions", "template_vector_of_vector_not_viable",
+        "template_param_matches_exactly", "templates_never_panic", "resolveT_no_panic", "unique_exact_selectedT",
+        # the call after the resolution: apply_casts + check_output_arguments on the selected overload
+        "output_arguments_checked", "callT_perm", "callT_accepted", "callT_refused", "out_vec1_is_refused",
         # the source text of the transcribed routines, re-extracted each run
         "resolve_shape_as_modelled", "resolve_source_as_transcribed"]],
     "harness": "c16",
@@ -173,7 +175,10 @@ SPEC = {
                   "arity and argument list, to give the same verdict under every permutation of the declaration order, to "
                   "select a unique exactly-matching candidate, to report several exactly-matching candidates as ambiguous "
                   "and never to select a dominated candidate; the loop-by-loop transcription with lazily evaluated get_rank "
-                  "is proved equal to it. The rank tables and the text of the transcribed routines are re-extracted from the "
+                  "is proved equal to it; for declared overloads (parameters T / vector<T,n> / matrix<T,x,y>, any explicit "
+                  "template arguments) no panic site is reachable, and the verdict on the whole call - resolution, then the "
+                  "check that an out / inout argument is a mutable lvalue of exactly the parameter's type - is proved order "
+                  "independent too. The rank tables and the text of the transcribed routines are re-extracted from the "
                   "source each run (a reshaped loop stops the theorems from checking); the model is compared with the real "
                   "type checker on generated programs under every declaration order on every call path that reaches "
                   "find_function_type (free functions, methods called from outside and inside, methods of struct templates, "
@@ -183,7 +188,8 @@ SPEC = {
     "rule": "C16.resolve requests = (candidate list in declaration order, argument types, options) compiled as an RSSL program "
             "whose overloads return distinct structs and whose call is wrapped in assert_type<R>(f(args)); the verdict is read "
             "from the type checker's structured result (Call node of the accepted module / AssertTypeFailed / "
-            "FunctionArgumentTypeMismatch ids + ambiguous flag), for a selected template also the template arguments of the "
+            "FunctionArgumentTypeMismatch ids + ambiguous flag / LvalueRequired, MutableRequired = an overload was selected "
+            "and an out / inout argument refused afterwards), for a selected template also the template arguments of the "
             "called instantiation; every permutation of every user-declared candidate set is run (sets of 1-5 overloads, 1-3 "
             "parameters over {bool,int,uint,half,float,double} x {scalar,2,3,4} x in/out/inout, some with a defaulted trailing "
             "parameter, off the grid 1-vectors, matrices, structs, enums, arrays; templates with T / vector<T,n> / "
@@ -192,25 +198,31 @@ SPEC = {
             "same verdict under every order and every argument spelling; hidden outer overloads never selected; a candidate "
             "whose parameter types equal the argument types is selected (several: ambiguous between exactly those); the "
             "selected candidate is viable and not dominated, conversion quality taken from a hand-written copy of the priority "
-            "table in casting.rs's header comment. C16.conv requests = one row of the exhaustive find/get_rank/"
+            "table in casting.rs's header comment; an accepted call converts no out / inout argument, and a call is refused for "
+            "an output argument only if an undominated viable candidate needs such a conversion and no candidate matches "
+            "exactly. C16.conv requests = one row of the exhaustive find/get_rank/"
             "get_target_type table over 8 scalar kinds x {scalar, vec1-4, 2 matrices} + enums + structs x "
             "{none,const,volatile} x {lvalue,rvalue}. non-trivial = at least two candidates / a table row.",
     "trusted_base": [
         "Lean 4.33 kernel; axioms propext / Classical.choice / Quot.sound only (audited by #print axioms)",
         "tools/gens/c16.py — RankTable (ScalarType, NumericDimension, InputModifier->ValueType, NumericRank + order + "
         "compare, VectorRank + worst_to_best, the (source_scalar,dest_scalar) rank match, get_rank's DimensionCast match) and "
-        "ResolveShape (19 regular-expression facts about find_function_type / find_overload_casts / find_identifier / "
-        "find_identifier_in_scope / insert_function_in_scope / get_struct_member_expression, the callers of "
-        "find_function_type, and the comment- and whitespace-free text of find_function_type, find_overload_casts, "
-        "try_infer_template_type, normalize_template_type) — re-run on /repo's working tree every time",
+        "ResolveShape (27 regular-expression facts about find_function_type / find_overload_casts / apply_templates / "
+        "build_function_template_signature / build_intrinsic_template / write_function / write_method / "
+        "ImplicitConversion::apply / Expression::get_type / find_identifier / find_identifier_in_scope / "
+        "insert_function_in_scope / get_struct_member_expression, the callers of find_function_type, and the comment- and "
+        "whitespace-free text of find_function_type, find_overload_casts, try_infer_template_type, "
+        "normalize_template_type, apply_template_type_substitution, check_output_arguments, check_mutable_place) — re-run "
+        "on /repo's working tree every time",
         "hand-written Model/Conv.lean (dimension/primary/modifier cast logic of find), Model/Overload.lean and "
-        "Model/OverloadT.lean (find_function_type and the template half of find_overload_casts: `resolveTLazy` is the "
-        "loop-by-loop transcription answering the correspondence requests, `resolveT`/`resolveG` the form the theorems use, "
-        "proved equal); Model/OverloadSrc.lean holds the source text they were transcribed from "
+        "Model/OverloadT.lean (find_function_type, the template half of find_overload_casts and the output-argument check "
+        "that follows the resolution: `callT` = `resolveTLazy`, the loop-by-loop transcription, then `checkOutputs`, answers "
+        "the correspondence requests; `resolveT`/`resolveG` is the form the theorems use, proved equal); Model/OverloadSrc.lean holds the source text they were transcribed from "
         "(resolve_source_as_transcribed) — their *meaning* is tied to the code by the correspondence run only",
         "Spec/Overload.lean: our reading of better/worse conversions, domination and exact match; harness/src/c16.rs: the "
         "oracle's hand-written conversion-quality table, its reading of template argument deduction, and "
-        "ImplicitConversion::find(..).is_ok() as the definition of 'viable'",
+        "ImplicitConversion::find(..).is_ok() as the definition of 'viable', its reading of 'an out or inout argument can "
+        "not be the result of a conversion' (the argument's type is the parameter's type)",
     ],
     "assumptions": [
         "TypeId equality is structural equality of types (the type registry hash-conses layers)",
@@ -223,9 +235,12 @@ SPEC = {
         "functions of the object; intrinsics + user functions of that name in the root scope) is fingerprinted "
         "(resolve_shape_as_modelled) and exercised by the call-path streams, not modelled in Lean",
         "template parameters appear in parameter types only as T, vector<T,n>, matrix<T,x,y>, T[n]; the compiler's own "
-        "templates (Load<T>, Store(uint,T), DispatchMesh) are run with type arguments only; one call per program (the "
-        "instantiation cache is never hit twice)",
-        "known defect (known_findings.jsonl): binding T of vector<T,n>/matrix<T,x,y> to a non-scalar panics in "
-        "TypeRegistry::register_type; the model reproduces the panic (template_vector_of_vector_panics)",
+        "templates (Load<T>, Store(uint,T), DispatchMesh) mention their type parameter in a parameter or the return type "
+        "(a constant given for it then fails the substitution, as the kind check does for user templates); one call per "
+        "program (the instantiation cache is never hit twice)",
+        "check_output_arguments beyond the type of the (converted) argument - the walk of check_mutable_place through "
+        "member / swizzle / subscript expressions to the variable - depends on the argument expression, not on its type: "
+        "not modelled (C03 owns it); the generated programs pass locals, members of a non-const local struct, static "
+        "globals, and the verdict is compared across these spellings",
     ],
 }
